@@ -262,6 +262,12 @@ pub fn apply(p: &mut Pset, u: &Upd) {
             let f = input_fields().into_iter().find(|f| f.name == name).expect("field");
             (f.set)(&mut p.inputs_mut()[*i], *v);
         }
+        // an updater marks an output for blinding: receiver blinding key + blinder index (the two go together)
+        Upd::Out(i, name, v) if name == "mark-for-blinding" => {
+            let o = &mut p.outputs_mut()[*i];
+            o.blinding_key = Some(btc_pk(70 + *v));
+            o.blinder_index = Some(0);
+        }
         Upd::Out(i, name, v) if name == "explicit-amount" => p.outputs_mut()[*i].amount = Some(1234 + *v),
         Upd::Out(i, name, v) if name == "explicit-asset" => p.outputs_mut()[*i].asset = Some(elements::AssetId::from_byte_array(pat32(*v as usize))),
         Upd::Out(i, name, v) => {
@@ -304,6 +310,10 @@ fn bfs_unique_id(r: &Report, base: &Pset, base_name: &str, depth: usize) {
     for j in 0..base.n_outputs() {
         for name in ID_NEUTRAL_OUTPUT {
             ops.push(Upd::Out(j, name.to_string(), 0));
+        }
+        if base.outputs()[j].blinding_key.is_none() && base.outputs()[j].amount_comm.is_none() {
+            ops.push(Upd::Out(j, "mark-for-blinding".to_string(), 0));
+            ops.push(Upd::Out(j, "mark-for-blinding".to_string(), 1));
         }
         let _ = &outfs;
     }
